@@ -25,6 +25,16 @@ class VTime:
 	def time(self):
 		return self.monotonic()
 
+	# other spellings of "a monotonic clock"
+	def perf_counter_ns(self):
+		return self.monotonic_ns()
+
+	def perf_counter(self):
+		return self.monotonic()
+
+	def time_ns(self):
+		return self.monotonic_ns()
+
 	def sleep(self, s):
 		self.now += int(s * 1e9)
 
@@ -103,3 +113,19 @@ class VEvent:
 					return False
 				self.cond.wait(min(left, 0.2))
 		return True
+
+
+def attach(clck_gen_module, gen, vt, ev):
+	""" Put the virtual time source and the harness event in place of the generator's own,
+	    whatever they are called: the module's `time` (or a directly imported monotonic_ns)
+	    and the instance's threading.Event. """
+	if hasattr(clck_gen_module, "time"):
+		clck_gen_module.time = vt
+	for name in ("monotonic_ns", "monotonic", "perf_counter_ns", "perf_counter"):
+		if hasattr(clck_gen_module, name):
+			setattr(clck_gen_module, name, getattr(vt, name))
+	names = [k for k, v in vars(gen).items() if isinstance(v, (threading.Event, VEvent))]
+	if len(names) != 1:
+		return False
+	setattr(gen, names[0], ev)
+	return True
